@@ -88,13 +88,79 @@ def extract(repo):
     return res
 
 
+SRC2 = "kaira/models/image/kurka2020_deepjscc_feedback.py"
+ELEMENTWISE = {"GDN", "PReLU", "Sigmoid", "ReLU", "LeakyReLU"}      # size-preserving layers (their traced shapes are checked by the harness)
+
+
+def _modulelist_layers(cls):
+    """nn.ModuleList([...]) of nn.Conv2d / nn.ConvTranspose2d / elementwise layers applied in order by `for layer in self.layers: x = layer(x)`"""
+    init = next((f for f in cls.body if isinstance(f, ast.FunctionDef) and f.name == "__init__"), None)
+    fwd = next((f for f in cls.body if isinstance(f, ast.FunctionDef) and f.name == "forward"), None)
+    if init is None or fwd is None:
+        raise TranslateError("%s: __init__ / forward not found" % cls.name)
+    lists = [n for n in ast.walk(init) if isinstance(n, ast.Call) and isinstance(n.func, ast.Attribute) and n.func.attr == "ModuleList"]
+    if len(lists) != 1 or len(lists[0].args) != 1 or not isinstance(lists[0].args[0], ast.List):
+        raise TranslateError("%s: expected exactly one nn.ModuleList([...])" % cls.name)
+    body = [st for st in fwd.body if not (isinstance(st, ast.Expr) and isinstance(st.value, ast.Constant))]
+    okfwd = (len(body) == 2 and isinstance(body[0], ast.For) and isinstance(body[0].iter, ast.Attribute) and body[0].iter.attr == "layers"
+             and len(body[0].body) == 1 and isinstance(body[0].body[0], ast.Assign) and isinstance(body[0].body[0].value, ast.Call)
+             and isinstance(body[0].body[0].value.func, ast.Name) and body[0].body[0].value.func.id == body[0].target.id
+             and [getattr(a, "id", None) for a in body[0].body[0].value.args] == ["x"] and isinstance(body[1], ast.Return)
+             and isinstance(body[1].value, ast.Name) and body[1].value.id == "x")
+    if not okfwd:
+        raise TranslateError("%s.forward is not `for layer in self.layers: x = layer(x); return x`" % cls.name)
+    out = []
+    for c in lists[0].args[0].elts:
+        if not isinstance(c, ast.Call):
+            raise TranslateError("%s: unrecognised layer" % cls.name)
+        fname = c.func.attr if isinstance(c.func, ast.Attribute) else getattr(c.func, "id", None)
+        if fname in ELEMENTWISE:
+            continue
+        if fname not in ("Conv2d", "ConvTranspose2d"):
+            raise TranslateError("%s: unrecognised layer %s" % (cls.name, fname))
+        vals = {"stride": 1, "padding": 0, "output_padding": 0}
+        pos = ["in_channels", "out_channels", "kernel_size", "stride", "padding"] + (["output_padding"] if fname == "ConvTranspose2d" else [])
+        for nm, a in zip(pos, c.args):
+            vals[nm] = a
+        for kw in c.keywords:
+            vals[kw.arg] = kw.value
+        if any(k in vals and not (isinstance(vals[k], ast.Constant) and vals[k].value == 1) for k in ("dilation", "groups")):
+            raise TranslateError("%s: dilation / groups not supported" % cls.name)
+        nums = []
+        for nm in ["kernel_size", "stride", "padding"] + (["output_padding"] if fname == "ConvTranspose2d" else []):
+            v = vals.get(nm)
+            if isinstance(v, ast.Constant):
+                v = v.value
+            if not isinstance(v, int) or isinstance(v, bool):
+                raise TranslateError("%s: %s of a %s layer is not an integer literal" % (cls.name, nm, fname))
+            nums.append(v)
+        out.append(("Conv" if fname == "Conv2d" else "TConv", nums))
+    return out
+
+
+def extract2(repo):
+    try:
+        tree = ast.parse(open(os.path.join(repo, SRC2)).read())
+    except (OSError, SyntaxError) as e:
+        raise TranslateError("cannot parse %s: %s" % (SRC2, e))
+    res = {}
+    for cls in tree.body:
+        if isinstance(cls, ast.ClassDef) and cls.name in ("DeepJSCCFeedbackEncoder", "DeepJSCCFeedbackDecoder"):
+            res[cls.name] = _modulelist_layers(cls)
+    if len(res) != 2:
+        raise TranslateError("feedback encoder / decoder classes not found")
+    return res
+
+
 def generate(repo):
     d = extract(repo)
+    d2 = extract2(repo)
 
     def lst(ls):
         return "[" + "; ".join("%s %s" % (k, " ".join("%d" % v for v in nums)) for k, nums in ls) + "]"
     text = ("(* GENERATED from %s by harness/translate/archs.py -- do not edit *)\n"
             "From Coq Require Import ZArith List.\nImport ListNotations.\nFrom KV Require Import Diff.ConvShape.\nLocal Open Scope Z_scope.\n"
             "Definition bourtsoulatze_encoder : list layer := %s.\nDefinition bourtsoulatze_decoder : list layer := %s.\n"
-            % (SRC, lst(d["Bourtsoulatze2019DeepJSCCEncoder"]), lst(d["Bourtsoulatze2019DeepJSCCDecoder"])))
+            "(* from %s *)\nDefinition kurka_encoder : list layer := %s.\nDefinition kurka_decoder : list layer := %s.\n"
+            % (SRC, lst(d["Bourtsoulatze2019DeepJSCCEncoder"]), lst(d["Bourtsoulatze2019DeepJSCCDecoder"]), SRC2, lst(d2["DeepJSCCFeedbackEncoder"]), lst(d2["DeepJSCCFeedbackDecoder"])))
     return {"Arch.v": text}
